@@ -31,6 +31,7 @@ var validatorRe = regexp.MustCompile(`VALIDATOR (\S+) OK evaluations=(\d+) bound
 // the bounded validator that stands in for a proof of them. A failure of a stand-in is a property violation with a
 // concrete failing input (the validator runs the real functions), not an engine fault.
 var standInOf = map[string]string{
+	"(*BatchDataCodingEncoder).Build": "BUILD",
 	"datacoding.(UCS2).": "XTEXT", "datacoding.(Latin1).": "XTEXT", "datacoding.(GB18030).": "XTEXT", "datacoding.(GSM7Unpacked).": "XTEXT",
 }
 
